@@ -184,7 +184,17 @@ func TestC10ValidatorAPI(t *testing.T) {
 			if !after.ok || after.root == before.root {
 				rt.Skip("payload unchanged or structure broken")
 			}
-			s.signWith(cl.bn, v.shares[me]) // a perfectly valid signature of the right share over a block that was not agreed
+			// a perfectly valid signature of the right share over a block that was not agreed (a mutated leaf
+			// can leave a block that no longer encodes, e.g. a bit list ending in a zero byte: nothing to sign)
+			cvm, cerr := s.coreView()
+			if cerr != nil {
+				rt.Skip("structure broken")
+			}
+			signedAlt, serr := specsign.Sign(cl.bn, v.shares[me], cvm)
+			if serr != nil {
+				rt.Skip("altered block does not encode: " + serr.Error())
+			}
+			copy((*s.sig())[:], signedAlt.Signature())
 			detail = l.Path
 			mustReject = true
 		}
